@@ -1963,6 +1963,14 @@ class Norm:
             x, hoist = x[1], True
         elif _has_try(x):
             x, hoist = ("call", "Ok", [x]), True
+        # an element of `s.map(f)` is f of an element of s (whatever the nesting depth the adaptor's closure was written at)
+        def fuse(n):
+            if n[0] == "elem" and n[1][0] == "call" and n[1][1] == "Iterator::map" and len(n[1][2]) == 2 and n[1][2][1][0] == "closure" and n[1][2][1][2] == 1:
+                return _apply(n[1][2][1], rewrite(("elem", n[1][2][0]), fuse))
+            return None
+        if it[0] == "call" and it[1] == "Iterator::map":
+            x = rewrite(x, fuse)
+            it = _elem_of(it)[0]
         es = _show(("elem", it))
 
         def sub(n):
